@@ -326,10 +326,11 @@ Proof.
 Qed.
 
 Definition tfhd_updated (g : list Z) (T : mp4_atom) : Prop :=
-  agree f (ma_off T) g (mv (ma_off T)) 16 /\
+  agree f (ma_off T) g (mv (ma_off T)) 12 /\
   (tfhd_flag f (ma_off T) = false -> agree f (ma_off T) g (mv (ma_off T)) (ma_len T)) /\
   (tfhd_flag f (ma_off T) = true ->
      tfhd_base g (mv (ma_off T)) = mp4_shift off delta (tfhd_base f (ma_off T)) /\
+     agree f (ma_off T) g (mv (ma_off T)) 16 /\
      agree f (ma_off T + 24) g (mv (ma_off T) + 24) (ma_len T - 24)).
 
 Lemma shift_gt o : (if o >? off then o + delta else o) = mp4_shift off delta o.
@@ -373,19 +374,22 @@ Proof.
       pose proof (update_tfhd_spec delta off g1 T g2) as SP. cbv zeta in SP. fold (nlo T) in SP.
       rewrite (nlo_mv T M) in SP. rewrite <- FL in SP.
       destruct (SP ltac:(lia) C12 C24 ltac:(lia) S) as (FL2 & SF & ST).
-      assert (A12 : agree g1 (mv (ma_off T)) g2 (mv (ma_off T)) 16).
-      { apply (agree_frame (mv (ma_off T) + 16) (mv (ma_off T) + ma_len T)); try lia.
-        rewrite <- (nlo_mv T M). unfold nlo. apply update_tfhd_frame; [|lia|exact S].
+      assert (FR : frame_in (mv (ma_off T) + 16) (mv (ma_off T) + ma_len T) g1 g2).
+      { rewrite <- (nlo_mv T M). unfold nlo. apply update_tfhd_frame; [|lia|exact S].
         fold (nlo T). rewrite (nlo_mv T M). lia. }
       split; [|split].
-      * eapply agree_trans; [apply (agree_prefix _ _ _ _ _ 16 AF); lia|].
-        eapply agree_trans; [exact A12|]. apply (agree_prefix _ _ _ _ _ 16 A2); lia.
+      * eapply agree_trans; [apply (agree_prefix _ _ _ _ _ 12 AF); lia|].
+        eapply agree_trans; [|apply (agree_prefix _ _ _ _ _ 12 A2); lia].
+        apply (agree_frame _ _ _ _ _ _ FR); lia.
       * intros E0. rewrite (SF E0) in *. eapply agree_trans; [exact AF|exact A2].
       * intros E1. specialize (C24 E1). destruct (ST E1) as (_ & -> & TB).
         destruct (tfhd_agree _ _ _ _ _ AF C24) as (_ & BF).
         destruct (tfhd_agree _ _ _ _ _ A2 C24) as (_ & B2).
-        split.
+        split; [|split].
         -- rewrite <- B2, TB, <- BF. apply shift_gt.
+        -- eapply agree_trans; [apply (agree_prefix _ _ _ _ _ 16 AF); lia|].
+           eapply agree_trans; [|apply (agree_prefix _ _ _ _ _ 16 A2); lia].
+           apply (agree_frame _ _ _ _ _ _ FR); lia.
         -- eapply agree_trans; [apply (agree_sub _ _ _ _ _ 24 (ma_len T - 24) AF); lia|].
            eapply agree_trans; [|apply (agree_sub _ _ _ _ _ 24 (ma_len T - 24) A2); lia].
            apply (agree_frame (mv (ma_off T) + 16) (mv (ma_off T) + 24)); try lia.
